@@ -8,7 +8,7 @@ import tempfile
 
 import numpy as np
 
-from . import common as C
+from . import common as C, genarith
 
 ANCHORS = [("shangrla/core/Audit.py", ["CVR.merge_cvrs", "CVR.from_raire", "CVR.from_raire_file", "CVR.from_vote",
                                        "CVR.__init__"])]
@@ -549,3 +549,6 @@ def run(ctx, res):
                        "between None / bool / int / str are modelled (Merge.pv), not verified; csv.reader and file I/O trusted",
                        "one list never contains the same CVR object twice (aliasing inside one call is outside the model); "
                        "objects are reused across calls"]
+    # regenerated tie: whole-function skeletons of merge_cvrs / from_raire / prep_manifest / sample_from_manifest and the
+    # lemmas tying them to Merge.v / Manifest.v (coq/gen/GenProofs_merge_skeletons.v), re-checked against the current source
+    genarith.regenerate(ctx.pid, "merge_skeletons", res)
